@@ -123,7 +123,14 @@ fn ctor_case(c: &Ctor, obs: &mut Obs) -> CaseResult {
     ensure!(mapped_here, "harness: cannot map the table reference at {:#x}", addr);
     cp.clear_log();
     m.log.clear();
-    let res = outcome(|| RecursivePageTable::new(unsafe { &mut *(addr as *mut PageTable) }).map(|_| ()).map_err(|e| format!("{:?}", e)));
+    let shown = std::cell::RefCell::new(String::new());
+    let res = outcome(|| {
+        RecursivePageTable::new(unsafe { &mut *(addr as *mut PageTable) }).map(|_| ()).map_err(|e| {
+            *shown.borrow_mut() = format!("{}", e).to_lowercase();
+            format!("{:?}", e)
+        })
+    });
+    let shown = shown.into_inner();
     let log = cp.take_log();
     let slot_ok = slot_raw & 1 != 0 && slot_raw & ADDR_MASK == cr3_frame;
     // when the four indices are equal the candidate slot is ix[0]
@@ -152,6 +159,12 @@ fn ctor_case(c: &Ctor, obs: &mut Obs) -> CaseResult {
     if got != want {
         unsafe { unmap_at(addr) };
         return Err(format!("{}: returned {:?}, expected {:?}", what, got, want));
+    }
+    // "reports 'not recursive' and 'not active' respectively": the message a caller prints must not name the
+    // other condition (wording is free otherwise)
+    if (want == Err("NotRecursive".to_string()) && shown.contains("not active")) || (want == Err("NotActive".to_string()) && shown.contains("not recursive")) {
+        unsafe { unmap_at(addr) };
+        return Err(format!("{}: the error {:?} displays as {:?}, which names the other condition", what, got, shown));
     }
     ensure!(log.iter().all(|t| t.op == Op::MovFromCr && t.a == 3), "{}: executed {:x?}", what, log);
     // "the frame *currently* loaded as address-space root": construct twice inside one function with
@@ -267,7 +280,7 @@ pub fn run(run: &mut Run) {
     let n = run.cases(100_000, 4_000_000);
     run.sub(
         "constructor",
-        "RecursivePageTable::new on table addresses of the recursive form and near-recursive forms (1-4 of the four indices replaced) x CR3 = any frame + any low 12 bits x slot content in {points to the CR3 frame, same with arbitrary other flags, not present, other frame, other frame while another slot points to the CR3 frame, slot fine but CR3 holds another frame}; oracle: Ok iff the four indices are equal and that slot is present and holds the CR3 frame, NotRecursive / NotActive otherwise, only CR3 is read; a second construction after a root switch (CR3 changed inside the same function) follows the new root; after Ok a translate() reaches the level-3 table through the page r|r|r|p4 (observed fault address of the software MMU); non-trivial = near-recursive address or a slot content other than the plain correct one",
+        "RecursivePageTable::new on table addresses of the recursive form and near-recursive forms (1-4 of the four indices replaced) x CR3 = any frame + any low 12 bits x slot content in {points to the CR3 frame, same with arbitrary other flags, not present, other frame, other frame while another slot points to the CR3 frame, slot fine but CR3 holds another frame}; oracle: Ok iff the four indices are equal and that slot is present and holds the CR3 frame, NotRecursive / NotActive otherwise, the Display text of the error does not name the other condition, only CR3 is read; a second construction after a root switch (CR3 changed inside the same function) follows the new root; after Ok a translate() reaches the level-3 table through the page r|r|r|p4 (observed fault address of the software MMU); non-trivial = near-recursive address or a slot content other than the plain correct one",
         n,
         ctor(),
         ctor_case,
@@ -276,12 +289,17 @@ pub fn run(run: &mut Run) {
     let max_ops = if run.tier == crate::engine::Tier::Quick { 24 } else { 64 };
     run.sub(
         "recursive_accesses",
-        "C01 histories on the running recursive mapper: every recursive page touched by a map/unmap/update_flags/set_flags/translate call must be one of r|r|r|r, r|r|r|p4, r|r|p4|p3, r|p4|p3|p2 of the call's page and none below the table the call works on (4 KiB: all four, 2 MiB: down to r|r|p4|p3, 1 GiB and set_flags_p3_entry: down to r|r|r|p4, ...; independent formula), and a clean-up must reach every table that lies wholly inside its range, and that table's ancestors, through the recursive addresses of that table; observed as fault addresses of the software MMU",
+        "C01 histories on the running recursive mapper: every recursive page touched by a map/unmap/update_flags/set_flags/translate call must be one of r|r|r|r, r|r|r|p4, r|r|p4|p3, r|p4|p3|p2 of the call's page and none below the table the call works on (4 KiB: all four, 2 MiB: down to r|r|p4|p3, 1 GiB and set_flags_p3_entry: down to r|r|r|p4, ...; independent formula), and a clean-up must reach every table that lies wholly inside its range, and that table's ancestors, through the recursive addresses of that table; observed as fault addresses of the software MMU; a quarter of the histories build the mapper with new_unchecked on an alias of the level-4 table (not its recursive address) — the lower tables must still be reached through the recursive index alone, and a fault at an address outside the recursive region is a violation",
         n,
         mapper::map_case([10, 2, 5, 3, 3, 3, 3, 1, 4], max_ops),
         |c, obs| {
             let r = mapper::run_backend(c, mapper::Backend::Recursive, T_C20);
             obs.add_evals(c.ops.len() as u64);
+            for l in &r.labels {
+                if l.starts_with("recursive-") {
+                    obs.label(l.clone());
+                }
+            }
             if let Some(f) = r.fail {
                 if f.tag & T_C20 != 0 {
                     return Err(format!("[C20] {}", f.msg));
